@@ -63,7 +63,7 @@ def gen_def(rng):
         j = rng.randrange(len(insts))
         insts[j]["raw_options"] = rng.choice(["[('k', 1)]", "'kv'", "[]", "(('k', 1),)"])
     twin = rng.random() < 0.25 and ninst > 0 and clash is None
-    return {"pkg": rng.choice(["", "a", "a/b"]), "run": rng.choice(["./run.sh", "true", "python3 x.py --flag"]), "insts": insts, "twin": twin,
+    return {"pkg": rng.choice(["", "a", "a/b"]), "run": rng.choice(["./run.sh", "true", "python3 x.py --flag"]), "insts": insts, "twin": twin, "polluter": (not twin) and rng.random() < 0.2,
             "chain": rng.choice([None, False, True, True]), "deps": other, "deps_form": rng.choice(["list", "list", "list", "tuple", "omit", "omit"] if ndeps == 0 else ["list", "list", "list", "list", "tuple"]),
             "exp_form": rng.choice(["list", "list", "tuple", "genexpr", "omit"] if ninst == 0 else ["list", "list", "tuple", "genexpr"]),
             "extra": ("before" if clash == "other-before" else "after") if extra_task else None, "clash": clash}
@@ -177,17 +177,24 @@ def write_forms(root_g, root_x, d):
         for p, srcs in files.items():
             os.makedirs(os.path.join(root, p), exist_ok=True)
             open(os.path.join(root, p, "COND"), "w").write("\n".join(srcs))
+        if d.get("polluter"):
+            # another COND file, parsed BEFORE the one under test, fills in an instance it created with defaults (a sweep
+            # written as `e = ExperimentInstance(name=...); e.options[...] = ...`); nothing of it may be visible elsewhere
+            os.makedirs(os.path.join(root, "pre0"), exist_ok=True)
+            open(os.path.join(root, "pre0", "COND"), "w").write(
+                "_e = ExperimentInstance(name='scratch')\n_e.args.append('leaked-arg')\n_e.options['leaked'] = 1\n"
+                "group(name='entry', deps=[%r])\n" % gen.tid(pkg, "grp"))
     return gsrc, xsrc
 
 
-def load_all(root, pkg, tmpd, twin=False):
+def load_all(root, pkg, tmpd, twin=False, polluter=False):
     from conductor.parsing.task_index import TaskIndex
     from conductor.task_identifier import TaskIdentifier
     from conductor.errors import ConductorError
     idx = TaskIndex(pathlib.Path(root))
     try:
         with common.cpu_budget(5):
-            idx.load_transitive_closure(TaskIdentifier.from_str(gen.tid(pkg, "both" if twin else "grp")))
+            idx.load_transitive_closure(TaskIdentifier.from_str("//pre0:entry" if polluter else gen.tid(pkg, "both" if twin else "grp")))
             idx.load_all_tasks_in_cond_file(pathlib.Path(pkg, "COND"))
     except ConductorError as ex:
         return ("rejected", type(ex).__name__)
@@ -221,8 +228,8 @@ def eval_defs(arg):
             rg, rx = os.path.join(sc.root, "g%d" % k), os.path.join(sc.root, "x%d" % k)
             gsrc, xsrc = write_forms(rg, rx, d)
             sigs.append(common.short_hash(d))
-            a = load_all(rg, d["pkg"], sc.root, d.get("twin"))
-            b = load_all(rx, d["pkg"], sc.root, d.get("twin"))
+            a = load_all(rg, d["pkg"], sc.root, d.get("twin"), d.get("polluter"))
+            b = load_all(rx, d["pkg"], sc.root, d.get("twin"), d.get("polluter"))
             out["reach"]["c19_pairs"] = out["reach"].get("c19_pairs", 0) + 1
             W = {"engine": "E5", "definition": d, "group_form": gsrc, "expansion": xsrc, "group_result": a, "expansion_result": b}
             if a[0] != b[0]:
